@@ -16,6 +16,9 @@ def seed_for(prop, batch_seed, i):
     return int.from_bytes(h[:8], 'big')
 
 _MACHINE = None
+# seconds after the start by which confirming/minimising violations must be over
+# (the commands in MANIFEST.json are wrapped in `timeout 900` / `timeout 3000`)
+HARD = {'quick': 560, 'thorough': 2500}
 
 def _init_worker():
     """Address-space limit per worker: an operation that tries to allocate tens of GB (seen: 20 GB
@@ -253,9 +256,26 @@ def main(machine, argv=None):
             break
     for kid, (k, cnt) in sorted(known_hit.items()):
         print('KNOWN-FINDING: property=%s %s [%s; seen %d times in this batch]' % (prop, k.get('what', ''), kid, cnt))
+    # triage has its own deadline, well inside the time-outs registered in MANIFEST.json: a change
+    # that breaks a property in many places must still end in VIOLATION lines and exit 1, not in a kill
+    hard = t0 + max(wall + 120, HARD.get(tier, 600) if not args.wall else wall * 3)
+    def write_replay(path, prog, v):
+        prog = dict(prog)
+        prog['violation'] = v
+        prog['tree'] = env.tree_digest()
+        prog['python'] = sys.version.split()[0]
+        prog['hashseed'] = os.environ.get('PYTHONHASHSEED')
+        with open(path, 'w') as f:
+            json.dump(prog, f, indent=1, sort_keys=True)
     if unknown:
         os.makedirs(os.path.join(env.VERIF, 'replays'), exist_ok=True)
+        reported = []
+        untriaged = 0
+        # phase 1: confirm and report (smallest classes of work first: shortest programs)
         for n, (cls, lst) in enumerate(sorted(unknown.items(), key=lambda kv: str(kv[0]))):
+            if reported and time.time() > hard:
+                untriaged += 1
+                continue
             lst.sort(key=lambda rv: (len(rv[0]['program'].get('steps', [])), rv[0]['seed']))
             # every violation is confirmed in a freshly forked pristine child before it
             # is reported: the in-process isolation is an optimisation, never the judge
@@ -271,24 +291,31 @@ def main(machine, argv=None):
                 leaks += 1
                 continue
             r, v = confirmed
-            prog = r['program']
-            if not args.no_minimise and len(replays) < 12:
-                from simkit import minimise
-                try:
-                    prog = minimise.minimise(machine, prog, v, budget_s=machine.MIN_WALL)
-                except BaseException as e:
-                    sys.stderr.write('minimiser failed: %r\n' % (e,))
-            prog['violation'] = v
-            prog['tree'] = env.tree_digest()
-            prog['python'] = sys.version.split()[0]
-            prog['hashseed'] = os.environ.get('PYTHONHASHSEED')
             path = os.path.join(env.VERIF, 'replays', '%s-%d.json' % (prop, r['seed']))
-            with open(path, 'w') as f:
-                json.dump(prog, f, indent=1, sort_keys=True)
+            write_replay(path, r['program'], v)
             replays.append(path)
+            reported.append((r, v, path))
             print('VIOLATION property=%s replay=%s' % (prop, path))
             print('  check=%s entry=%s occurrences=%d detail=%s' % (v.get('check'), v.get('entry'), len(lst),
                                                                      json.dumps(v.get('detail'), sort_keys=True)[:600]))
+            sys.stdout.flush()
+        if untriaged:
+            print('  (%d further violation classes seen in-process were not triaged: triage deadline reached)' % untriaged)
+        # phase 2: minimise the replay files in place, as far as the deadline allows
+        if not args.no_minimise:
+            from simkit import minimise
+            for r, v, path in reported[:12]:
+                left = hard - time.time()
+                if left < 20:
+                    break
+                try:
+                    prog = minimise.minimise(machine, r['program'], v, budget_s=min(machine.MIN_WALL, left / 2))
+                    write_replay(path, prog, v)
+                    sys.stderr.write('minimised %s: %d -> %d steps\n' % (os.path.basename(path), len(r['program'].get('steps', [])),
+                                                                           len(prog.get('steps', []))))
+                except BaseException as e:
+                    sys.stderr.write('minimiser failed: %r\n' % (e,))
+        sys.stdout.flush()
     if replays:
         exit_code = 1
     elif leaks:
